@@ -1,5 +1,5 @@
 """Which units exist, and what each claimed property covers / does not cover (copied into evidence)."""
-UNITS = ['budget', 'scalars', 'events', 'location', 'live', 'reader', 'snippet', 'quoting', 'typed', 'base64']
+UNITS = ['budget', 'scalars', 'events', 'location', 'live', 'reader', 'snippet', 'quoting', 'typed', 'base64', 'crop']
 
 GLOBAL_ASSUMPTIONS = [
     'Verus 0.2026.09.13 and its bundled Z3 are sound; the extractor rewrite rules R0..R17 preserve meaning (DESIGN.md 3.2)',
